@@ -1,11 +1,13 @@
 """C08 - reaction quantities obey Hess's law, reversal symmetry and detailed balance."""
+import ast as _ast
 from fractions import Fraction as Fr
 
 from ..nf import Rat, C
 from ..source import Unsupported, AnchorError
-from ..xlate import Interp, Obj, ListV, DictV, Raised
-from .common import same, show, sub
-from .rxnfix import reaction, state_sum, get_public, species, make_reaction
+from ..xlate import Interp, Obj, ListV, DictV, Raised, FuncRef
+from .common import same, show, sub, opaque_obj
+from .rxnfix import (reaction, state_sum, get_public, set_public, species, make_reaction, SPECIES_METHODS,
+                     SPECIES_PARAMS)
 
 CLASSES = (('Reaction', 'pmutt.reaction.Reaction'),
            ('ChemkinReaction', 'pmutt.reaction.ChemkinReaction'),
@@ -16,6 +18,40 @@ CLAMPED = {('ChemkinReaction', 'HoRT'), ('ChemkinReaction', 'GoRT'),
 UNIT_GETTERS = (('E', 'EoRT', True), ('H', 'HoRT', True), ('G', 'GoRT', True), ('U', 'UoRT', True),
                 ('F', 'FoRT', True), ('S', 'SoR', False), ('Cp', 'CpoR', False), ('Cv', 'CvoR', False))
 STATES = (('reactants', 'r'), ('products', 'p'), ('transition state', 't'), ('transition_state', 't'), ('TS', 't'))
+
+
+# A model species of the second kind.  Every species-level class of pMuTT (StatMech, Nasa, Nasa9, Shomate, ...) has
+# getters that accept **kwargs, take what they read from them and ignore the rest; a reaction therefore hands them
+# everything it has for them.  The getters of such a species are functions ``get_X(T, **kwargs)`` written here (the
+# interpreter sees a callable with a VAR_KEYWORD parameter, as inspect.signature reports for the real classes); their
+# value is the same uninterpreted atom as for the species with a fixed signature, named by the conditions a species
+# reads (SPECIES_PARAMS) - a key it does not know, a block of conditions addressed to a species (which no empirical
+# class looks for: sorting the blocks out is the reaction's business), is ignored as the real classes ignore it.
+_KW_GETTERS = {m: _ast.parse('def %s(T, **kwargs):\n    return _record(T=T, **kwargs)\n' % m).body[0]
+               for m in SPECIES_METHODS}
+
+
+class _Record:
+    def __init__(self, obj, method):
+        self.obj, self.method = obj, method
+
+    def pmv_call(self, I, fr, args, kwargs, n):
+        if args:
+            raise Unsupported('model species %s.%s called with positional arguments' % (self.obj.name, self.method), n)
+        return self.obj.opaque_methods[self.method](I, self.obj, [],
+                                                    {k: kwargs[k] for k in SPECIES_PARAMS if k in kwargs})
+
+
+def accept_kwargs(I, repo, sp):
+    """turn the model species ``sp`` into one whose getters are ``(T, **kwargs)`` functions"""
+    for m in SPECIES_METHODS:
+        sp.attrs[m] = FuncRef(repo.module('pmutt'), _KW_GETTERS[m], None, None, closure={'_record': _Record(sp, m)})
+    return sp
+
+
+def failed(*vals):
+    """a getter that raised has no value to do arithmetic with (its own obligation has already failed)"""
+    return any(isinstance(v, Raised) or v is None for v in vals)
 
 
 def expected_state(I, rxn, which, method, kw):
@@ -32,10 +68,16 @@ def expected_delta(I, rxn, method, kw, rev, act):
     return b / a if method == 'get_q' else b - a
 
 
+KW_SPECIES = ('H2O', 'H2O2(S)', 'H2O(S)', 'PT(B)')        # their getters accept **kwargs
+
+
 def named_reaction(I, repo, qual):
-    """H2 + H2O + PT(S) = [H2O2(S)] = H2O(S) + h2o + PT(B): species whose names are stems, prefixes and case variants
-    of one another, gas and surface phases, a catalyst site (built by its public constructor) whose bulk species takes
-    part; three species per side; symbolic coefficients"""
+    """H2 + H2O + PT(S) = [H2O2(S) + H2O_TS] = H2O(S) + h2o + PT(B): species whose names are stems, prefixes and case
+    variants of one another, a name that contains the separator of the block syntax (H2O_TS, as the transition state
+    of the package's own examples is called), gas and surface phases, a catalyst site (built by its public
+    constructor) whose bulk species takes part; three species per side, two in the transition state; symbolic
+    coefficients; both kinds of model species (getters with a fixed signature, getters accepting **kwargs) on every
+    side"""
     D = I.D
     site = I.construct(repo.cls('pmutt.chemkin.CatSite'), [],
                        {'name': 'PT(S)', 'site_density': D.sym('sden'), 'density': D.sym('rho'),
@@ -44,9 +86,11 @@ def named_reaction(I, repo, qual):
         raise Unsupported('CatSite(...) raised %s' % site.exc)
     sp = {}
     for nm, ph, st in (('H2', 'G', None), ('H2O', 'G', None), ('PT(S)', 'S', site), ('H2O2(S)', 'S', site),
-                       ('H2O(S)', 'S', site), ('h2o', 'G', None), ('PT(B)', 'S', site)):
+                       ('H2O_TS', 'G', None), ('H2O(S)', 'S', site), ('h2o', 'G', None), ('PT(B)', 'S', site)):
         sp[nm] = species(I, nm, ph, st)
-    sides = {'reactants': ('H2', 'H2O', 'PT(S)'), 'transition_state': ('H2O2(S)',),
+        if nm in KW_SPECIES:
+            accept_kwargs(I, repo, sp[nm])
+    sides = {'reactants': ('H2', 'H2O', 'PT(S)'), 'transition_state': ('H2O2(S)', 'H2O_TS'),
              'products': ('H2O(S)', 'h2o', 'PT(B)')}
     nu = {nm: D.sym('nu<%s>' % nm) for nm in sp}
     rxn = make_reaction(I, repo, qual, [sp[x] for x in sides['reactants']], [nu[x] for x in sides['reactants']],
@@ -128,7 +172,7 @@ def named(run, repo, cname, qual, ci):
     #    name it is a prefix or the stem of, not the one that differs in case)
     every = {nm: {'P': D.sym('P<%s>' % nm)} for nm in sp}
     cases = [('a block for every species', every)]
-    for nm in ('H2', 'H2O', 'H2O(S)', 'h2o', 'H2O2(S)', 'PT(B)'):
+    for nm in ('H2', 'H2O', 'H2O(S)', 'h2o', 'H2O2(S)', 'PT(B)', 'H2O_TS'):
         cases.append(('a block for %s alone' % nm, {nm: {'P': D.sym('P2'), 'T': D.sym('T2')}}))
     for label, blocks in cases:
         order = ['T', 'P'] + [b + '_kwargs' for b in blocks]
@@ -138,7 +182,7 @@ def named(run, repo, cname, qual, ci):
             want = routed_state(I, fx, which, 'get_HoRT', kw, blocks)
             run.check(same(got, want), 'DATAFLOW.species-kwargs', cname + '.get_state_quantity',
                       'related names: %s, state:%s' % (label, st),
-                      'species H2, H2O, H2O(S), h2o, H2O2(S), PT(S), PT(B): conditions addressed to one species by '
+                      'species H2, H2O, H2O(S), h2o, H2O2(S), H2O_TS, PT(S), PT(B): conditions addressed to one species by '
                       'its name must reach that species and no other: %s' % show(got, 300), owner.module, fn)
             n += 1
         got = I.call_method(rxn, 'get_delta_GoRT', [], as_kwargs(order, kw, blocks))
@@ -188,6 +232,275 @@ def named(run, repo, cname, qual, ci):
     return n
 
 
+def positional(run, repo, cname, ci, I, rxn, kw):
+    """the leading parameters of every getter in the documented order - (state), (state, units[, T]), (rev, act),
+    (units[, T], rev, act), (rev), (units[, T], rev) - given by position, the conditions by keyword: the same values
+    as when everything is written as a keyword (the order of the parameters is part of the public interface;
+    ``rxn.get_G_act('kJ/mol', 500., True)`` is the reverse barrier).  A getter a subclass inherits is the very function
+    decided on the class that defines it; the quick tier does not repeat it."""
+    D = I.D
+    every = run.tier == 'thorough' or cname == CLASSES[0][0]
+    T = kw['T']
+    rest = {k: v for k, v in kw.items() if k != 'T'}
+    n = 0
+
+    def one(rule, mname, args, kwargs, want, key, why):
+        owner, fn = repo.find_method(ci, mname)
+        if not every and owner is not ci:
+            return 0
+        got = I.call_method(rxn, mname, list(args), dict(kwargs))
+        run.check(same(got, want), rule, '%s.%s' % (cname, mname), 'by position: ' + key,
+                  '%s: %s' % (why, show(got, 200)), owner.module, fn)
+        return 1
+
+    for X in QUANT:
+        m = 'get_' + X
+        kwe = dict(kw, include_ZPE=False) if X == 'EoRT' else kw
+        n += one('REF.state', 'get_%s_state' % X, ['products'], kw, expected_state(I, rxn, 'products', m, kwe),
+                 "('products')", 'called as get_%s_state(\'products\', T=, P=) the value is not the sum over the '
+                 'products' % X)
+        n += one('REF.delta', 'get_delta_' + X, [True, False], kw, expected_delta(I, rxn, m, kw, True, False),
+                 '(rev, act) = (True, False)', 'called as get_delta_%s(True, False, T=, P=) - reverse direction, no '
+                 'activation - the change is not reactants minus products' % X)
+        if X != 'EoRT' and (cname, X) not in CLAMPED:
+            kw2 = dict(kw, include_ZPE=False) if X == 'q' else kw
+            n += one('REF.act', 'get_%s_act' % X, [True], kw, expected_delta(I, rxn, m, kw2, True, True),
+                     '(rev) = (True)', 'called as get_%s_act(True, T=, P=) - reverse direction - the activation '
+                     'quantity is not transition state minus products' % X)
+    for rev, act in ((True, False), (False, True)):
+        n += one('REF.Keq', 'get_Keq', [rev, act], kw, D.exp(-expected_delta(I, rxn, 'get_GoRT', kw, rev, act)),
+                 '(rev, act) = (%s, %s)' % (rev, act), 'called as get_Keq(%s, %s, T=, P=) the constant is not '
+                 'exp(-delta G/RT) of that direction' % (rev, act))
+    ubase = 'kJ/mol'
+    Ru = D.sym('kb') * I.unit(ubase) * D.sym('Na')
+    for Xd, Xn, energy in UNIT_GETTERS:
+        units = ubase if energy else ubase + '/K'
+        fac = Ru * T if energy else Ru
+        lead, cond = ([units, T], rest) if energy else ([units], kw)
+        sig_ = '(units, T' if energy else '(units'
+        m = 'get_' + Xn
+        if repo.find_method(ci, 'get_%s_state' % Xd, missing_ok=True) is not None:
+            zpe = [True] if Xd == 'E' else []
+            kwe = dict(kw, include_ZPE=True) if Xd == 'E' else kw
+            n += one('REF.state', 'get_%s_state' % Xd, ['products'] + [units] + ([T] if energy else []) + zpe, cond,
+                     I.binop('*', expected_state(I, rxn, 'products', m, kwe), fac),
+                     '(state, %s%s)' % (sig_[1:], ', include_ZPE' if zpe else ''),
+                     'called with the state, the unit%s%s by position the value in %s is not the sum over the '
+                     'products' % (', the temperature' if energy else '', ', include_ZPE=True' if zpe else '', units))
+        if repo.find_method(ci, 'get_delta_' + Xd, missing_ok=True) is not None:
+            n += one('REF.delta', 'get_delta_' + Xd, lead + [True, False], cond,
+                     I.binop('*', expected_delta(I, rxn, m, kw, True, False), fac),
+                     sig_ + ', rev, act) = (..., True, False)',
+                     'called as get_delta_%s%s, True, False, ...) the change in %s is not reactants minus products'
+                     % (Xd, sig_, units))
+        if Xd != 'E' and (cname, Xn) not in CLAMPED and \
+                repo.find_method(ci, 'get_%s_act' % Xd, missing_ok=True) is not None:
+            n += one('REF.act', 'get_%s_act' % Xd, lead + [True], cond,
+                     I.binop('*', expected_delta(I, rxn, m, kw, True, True), fac), sig_ + ', rev) = (..., True)',
+                     'called as get_%s_act%s, True, ...) - the reverse direction - the activation quantity in %s is '
+                     'not transition state minus products' % (Xd, sig_, units))
+    return n
+
+
+def laws(run, repo, cname, ci, I, rxn, sides, kw, tag, what, brief=False):
+    """state sums, changes and equilibrium constants of ``rxn`` against the sides written in ``sides``
+    ({state: (species, coefficients)}) - not read back from the object"""
+    D = I.D
+    n = 0
+    four = ((False, False), (True, False), (False, True), (True, True))
+
+    def st(which, m):
+        return state_sum(I, sides[which][0], sides[which][1], m, kw, prod=(m == 'get_q'))
+
+    def dl(m, rev, act):
+        a = st('products' if rev else 'reactants', m)
+        b = st('transition_state' if act else ('reactants' if rev else 'products'), m)
+        return b / a if m == 'get_q' else b - a
+
+    for X in (('HoRT',) if brief else ('HoRT', 'q')):
+        owner, fn = repo.find_method(ci, 'get_%s_state' % X)
+        for label, which in (('reactants', 'reactants'), ('products', 'products'), ('TS', 'transition_state')):
+            got = I.call_method(rxn, 'get_%s_state' % X, [], dict(kw, state=label))
+            run.check(same(got, st(which, 'get_' + X)), 'REF.state', '%s.get_%s_state' % (cname, X),
+                      '%s state:%s' % (tag, label),
+                      '%s the state quantity of the %s is not the stoichiometry-weighted %s over the species and '
+                      'coefficients the reaction has at the time of the call: %s'
+                      % (what, label, 'product of powers' if X == 'q' else 'sum', show(got, 200)), owner.module, fn)
+            n += 1
+    for X, combos in ((('GoRT', four[::3]),) if brief else
+                      (('GoRT', four), ('SoR', four[::3]), ('q', four[:1]))):
+        owner, fn = repo.find_method(ci, 'get_delta_' + X)
+        for rev, act in combos:
+            got = I.call_method(rxn, 'get_delta_' + X, [], dict(kw, rev=rev, act=act))
+            run.check(same(got, dl('get_' + X, rev, act)), 'REF.delta', '%s.get_delta_%s' % (cname, X),
+                      '%s rev=%s act=%s' % (tag, rev, act),
+                      '%s the change is not final minus initial over the species and coefficients the reaction has '
+                      'at the time of the call: %s' % (what, show(got, 200)), owner.module, fn)
+            n += 1
+    owner, fn = repo.find_method(ci, 'get_Keq')
+    for rev, act in (four[:1] if brief else four[::3]):
+        got = I.call_method(rxn, 'get_Keq', [], dict(kw, rev=rev, act=act))
+        run.check(same(got, D.exp(-dl('get_GoRT', rev, act))), 'REF.Keq', cname + '.get_Keq',
+                  '%s rev=%s act=%s' % (tag, rev, act),
+                  '%s the equilibrium constant is not exp(-delta G/RT) of the reaction as it is at the time of the '
+                  'call: %s' % (what, show(got, 200)), owner.module, fn)
+        n += 1
+    return n
+
+
+def reassigned(run, repo, cname, qual, ci, I, rxn, rs, ps, ts):
+    """step 9: a reaction object is not frozen - all six sides have public setters - and it is not alone.  After the
+    evaluations of steps 1-5: (a) the same reaction written for other amounts (new coefficients on every side, the
+    species untouched), evaluated at other conditions than before; (b) other species, lists of other lengths; (c) a
+    second reaction of the same class in the same session, then the first one again.  (Quick tier, subclasses and the
+    repetitions of (c): the enthalpy of the three states, two changes of G and one equilibrium constant.)"""
+    D = I.D
+    n = 0
+    brief = run.tier != 'thorough' and cname != CLASSES[0][0]
+    kw2 = {'T': D.sym('T2'), 'P': D.sym('P2')}
+    mu = {w: [D.sym('mu_%s%d' % (w[0], i)) for i in range(k)] for w, k in
+          (('reactants', len(rs)), ('products', len(ps)), ('transition_state', len(ts)))}
+    for w in mu:
+        set_public(I, rxn, w + '_stoich', ListV(list(mu[w])))
+    sides = {'reactants': (rs, mu['reactants']), 'products': (ps, mu['products']),
+             'transition_state': (ts, mu['transition_state'])}
+    n += laws(run, repo, cname, ci, I, rxn, sides, kw2, 'new coefficients',
+              'after reactants_stoich, products_stoich and transition_state_stoich were assigned new values', brief)
+    new = [species(I, 'n%d' % i) for i in range(3)]
+    accept_kwargs(I, repo, new[1])
+    sides = {'reactants': ([new[0]], [D.sym('la_r0')]),
+             'products': ([rs[0], new[1], ps[1]], [D.sym('la_p%d' % i) for i in range(3)]),
+             'transition_state': ([new[2], ts[0]], [D.sym('la_t%d' % i) for i in range(2)])}
+    for w, (sp_, nu_) in sides.items():
+        set_public(I, rxn, w, ListV(list(sp_)))
+        set_public(I, rxn, w + '_stoich', ListV(list(nu_)))
+    kw = {'T': D.sym('T'), 'P': D.sym('P')}
+    what = 'after all six sides were assigned new lists (1 reactant, 3 products, 2 transition-state species)'
+    n += laws(run, repo, cname, ci, I, rxn, sides, kw, 'new species', what, brief)
+    other = [species(I, 'o%d' % i) for i in range(4)]
+    sides2 = {'reactants': (other[:2], [D.sym('ka_r0'), D.sym('ka_r1')]), 'products': (other[2:3], [D.sym('ka_p0')]),
+              'transition_state': (other[3:], [D.sym('ka_t0')])}
+    rxn2 = make_reaction(I, repo, qual, *[x for w in ('reactants', 'products', 'transition_state')
+                                          for x in sides2[w]], name='rxn_second')
+    n += laws(run, repo, cname, ci, I, rxn2, sides2, kw, 'second reaction',
+              'for a second reaction object of the class (o0 + o1 = [o3] = o2) built after the first was evaluated',
+              run.tier != 'thorough')
+    n += laws(run, repo, cname, ci, I, rxn, sides, kw2, 'first reaction again',
+              'after a second reaction object was built and evaluated, for the first one', run.tier != 'thorough')
+    return n
+
+
+# ---- concrete reactions ---------------------------------------------------------------------------------------------
+# Everything below the species getters is arithmetic on their values, so a decision that depends on a *value* (a
+# tolerance on the difference of two states, a test on a coefficient, a rounding) cannot be followed on atoms.  Two
+# reactions whose species values and coefficients are exact rational numbers are evaluated through the same interpreter
+# (rational arithmetic, no floating point) and compared with the sums written here:
+#  N1  A = [TS] = B, conformers: every quantity of B is that of A times (1 + 4e-6), of TS times (1 - 6e-6), at the
+#      magnitude electronic-structure energies have in units of RT (1e4) - changes that are small against the state
+#      values and far above round-off;
+#  N2  0.25 a + 0.5 b + c + 4 d = [1.5 t1 + 0.5 t2] = 2 e + 0.75 f + 0.5 c: the extreme and fractional coefficients of
+#      the quantifier, a coefficient of exactly 1, a species on both sides with different coefficients.
+N1_BASE = {'get_q': Fr(1234567, 1000), 'get_CvoR': Fr(25, 2), 'get_CpoR': Fr(27, 2), 'get_UoRT': Fr(-46417, 4),
+           'get_HoRT': Fr(-46413, 4), 'get_SoR': Fr(127, 4), 'get_FoRT': Fr(-11636), 'get_GoRT': Fr(-11635),
+           'get_EoRT': Fr(-23221, 2)}
+N1 = {'reactants': (('A(S)', 1),), 'transition_state': (('TS(S)', 1),), 'products': (('B(S)', 1),)}
+N1_SCALE = {'A(S)': Fr(1), 'B(S)': 1 + Fr(4, 10 ** 6), 'TS(S)': 1 - Fr(6, 10 ** 6)}
+N2 = {'reactants': (('a', Fr(1, 4)), ('b', Fr(1, 2)), ('c', 1), ('d', 4)),
+      'transition_state': (('t1', Fr(3, 2)), ('t2', Fr(1, 2))),
+      'products': (('e', 2), ('f', Fr(3, 4)), ('c', Fr(1, 2)))}
+N2_NAMES = ('a', 'b', 'c', 'd', 't1', 't2', 'e', 'f')
+
+
+def n1_value(name, method):
+    return N1_BASE[method] * N1_SCALE[name]
+
+
+def n2_value(name, method):
+    i, j = N2_NAMES.index(name), SPECIES_METHODS.index(method)
+    return Fr(((i + 2) * (j + 3) * 37) % 101 + 1, 4) - 10
+
+
+def numeric_species(I, repo, name, value, kwargs_kind):
+    rewrite = {m: (lambda I_, obj, args, kwargs, m=m: C(value(name, m))) for m in SPECIES_METHODS}
+    o = opaque_obj(I, name, {m: SPECIES_PARAMS for m in SPECIES_METHODS}, rewrite=rewrite)
+    o.attrs.update({'name': name, 'phase': 'S' if name.endswith('(S)') else 'G', 'cat_site': None,
+                    'elements': DictV({'A': C(1)})})
+    return accept_kwargs(I, repo, o) if kwargs_kind else o
+
+
+def numeric(run, repo, cname, qual, ci):
+    """quick tier: per quantity one state (in turn), the forward reaction change and the reverse activation change, N2
+    on the subclasses for the quantities whose getters they redefine; thorough tier: every state, every (rev, act),
+    every quantity on every class"""
+    n = 0
+    full = run.tier == 'thorough'
+    all_states = (('reactants', 'reactants'), ('products', 'products'), ('TS', 'transition_state'))
+    combos = tuple((r_, a_) for r_ in (False, True) for a_ in (False, True)) if full else ((False, False), (True, True))
+    own = tuple(X for X in QUANT[1:] if full or repo.find_method(ci, 'get_delta_' + X)[0] is ci)
+    for tag, sides, value, quants in (('N1', N1, n1_value, QUANT), ('N2', N2, n2_value, own)):
+        I = Interp(repo)
+        D = I.D
+        names = []
+        for side in sides.values():
+            names += [nm for nm, _ in side if nm not in names]
+        sp = {nm: numeric_species(I, repo, nm, value, k % 2 == 1) for k, nm in enumerate(names)}
+        rxn = make_reaction(I, repo, qual, *[x for w in ('reactants', 'products', 'transition_state')
+                                             for x in ([sp[nm] for nm, _ in sides[w]], [C(nu) for _, nu in sides[w]])],
+                            name='rxn_' + tag)
+        kw = {'T': C(300), 'P': C(1)}
+        text = ' + '.join('%s %s' % (nu, nm) for nm, nu in sides['reactants']) + ' = [' + \
+            ' + '.join('%s %s' % (nu, nm) for nm, nu in sides['transition_state']) + '] = ' + \
+            ' + '.join('%s %s' % (nu, nm) for nm, nu in sides['products'])
+
+        def state(which, m):
+            if m == 'get_q':
+                tot = Fr(1)
+                for nm, nu in sides[which]:
+                    if Fr(nu).denominator != 1:
+                        raise Unsupported('fractional power of a number in the concrete reaction ' + tag)
+                    tot *= value(nm, m) ** int(nu)
+                return tot
+            return sum((Fr(nu) * value(nm, m) for nm, nu in sides[which]), Fr(0))
+
+        def delta(m, rev, act):
+            a = state('products' if rev else 'reactants', m)
+            b = state('transition_state' if act else ('reactants' if rev else 'products'), m)
+            return b / a if m == 'get_q' else b - a
+
+        for X in quants:
+            m = 'get_' + X
+            owner, fn = repo.find_method(ci, 'get_%s_state' % X)
+            for st, which in (all_states if full else (all_states[QUANT.index(X) % 3],)):
+                got = I.call_method(rxn, 'get_%s_state' % X, [], dict(kw, state=st))
+                run.check(same(got, C(state(which, m))), 'REF.state', '%s.get_%s_state' % (cname, X),
+                          '%s numbers state:%s' % (tag, st),
+                          'for %s with the species values %s the %s have %s = %s, the getter returns %s'
+                          % (text, {nm: str(value(nm, m)) for nm, _ in sides[which]}, st, X, state(which, m),
+                             show(got, 120)), owner.module, fn)
+                n += 1
+            owner, fn = repo.find_method(ci, 'get_delta_' + X)
+            for rev, act in combos:
+                got = I.call_method(rxn, 'get_delta_' + X, [], dict(kw, rev=rev, act=act))
+                run.check(same(got, C(delta(m, rev, act))), 'REF.delta', '%s.get_delta_%s' % (cname, X),
+                          '%s numbers rev=%s act=%s' % (tag, rev, act),
+                          'for %s the final and the initial state have %s = %s and %s (a change that is small '
+                          'against the values is still the change): the change is %s, the getter returns %s'
+                          % (text, X, state('transition_state' if act else ('reactants' if rev else 'products'), m),
+                             state('products' if rev else 'reactants', m), delta(m, rev, act), show(got, 120)),
+                          owner.module, fn)
+                n += 1
+        owner, fn = repo.find_method(ci, 'get_Keq')
+        for rev, act in combos:
+            got = I.call_method(rxn, 'get_Keq', [], dict(kw, rev=rev, act=act))
+            dG = delta('get_GoRT', rev, act)
+            run.check(same(got, D.exp(C(-dG))), 'REF.Keq', cname + '.get_Keq',
+                      '%s numbers rev=%s act=%s' % (tag, rev, act),
+                      'for %s delta G/RT = %s, the equilibrium constant is %s, not exp(-delta G/RT)'
+                      % (text, dG, show(got, 120)), owner.module, fn)
+            n += 1
+    return n
+
+
 def check(run, repo):
     run.explanation = (
         'Reaction, ChemkinReaction and SurfaceReaction are interpreted abstractly with uninterpreted species '
@@ -207,12 +520,19 @@ def check(run, repo):
                        '(uninterpreted atoms); _force_pass_arguments modelled by its documented contract']
     run.undecided = ['numerical values; species whose getters ignore their arguments']
     n = 0
+    # 0. concrete reactions first: what they establish is reported even when a change makes a symbolic instance
+    #    undecidable (a comparison of two atoms)
+    for cname, qual in CLASSES:
+        n += numeric(run, repo, cname, qual, repo.cls(qual))
     for cname, qual in CLASSES:
         ci = repo.cls(qual)
         I = Interp(repo)
         D = I.D
         T, P, P2 = D.sym('T'), D.sym('P'), D.sym('P2')
         rxn, rs, ps, ts = reaction(I, repo, qual)
+        # any mix of model classes: one species per end state has getters that accept **kwargs
+        accept_kwargs(I, repo, rs[1])
+        accept_kwargs(I, repo, ps[1])
         kw = {'T': T, 'P': P}
         for X in QUANT:
             m = 'get_' + X
@@ -254,7 +574,9 @@ def check(run, repo):
                           'is %s' % (show(got, 160), bool(rev), bool(act), show(d[(bool(rev), bool(act))], 160)),
                           owner.module, fn)
                 n += 1
-            if X == 'q':
+            if failed(*d.values()):
+                ok_rev = ok_act = False
+            elif X == 'q':
                 ok_rev = same(d[(True, False)] * d[(False, False)], C(1))
                 ok_act = same(d[(False, True)] / d[(True, True)], d[(False, False)])
             else:
@@ -355,8 +677,10 @@ def check(run, repo):
         run.check(same(Kf, D.exp(-dG)), 'REF.Keq', cname + '.get_Keq', 'K=exp(-dG/RT)',
                   'equilibrium constant is %s, not exp(-delta G/RT)' % show(Kf, 200), owner.module, fn,
                   sample='%s.get_Keq == exp(-(G_products - G_reactants))' % cname)
-        run.check(same(Kf * Kr, C(1)), 'ALG.detailed-balance', cname + '.get_Keq', 'Kf*Kr=1',
-                  'K_forward * K_reverse = %s, not 1' % show(Kf * Kr, 200), owner.module, fn)
+        KfKr = None if failed(Kf, Kr) else Kf * Kr
+        run.check(KfKr is not None and same(KfKr, C(1)), 'ALG.detailed-balance', cname + '.get_Keq', 'Kf*Kr=1',
+                  'K_forward * K_reverse = %s, not 1' % (show(KfKr, 200) if KfKr is not None else
+                                                         '%s * %s' % (show(Kf, 80), show(Kr, 80))), owner.module, fn)
         # every (direction, activation) combination: the reverse activation constant is NOT the reciprocal of the
         # forward one (different initial states, same transition state)
         for rev_, act_ in ((False, True), (True, True), (True, False)):
@@ -392,6 +716,10 @@ def check(run, repo):
             run.check(list(blk.d) == ['P'] and blk.d['P'] is P2, 'EFFECT.caller-dict', '%s.%s' % (cname, meth),
                       'nested blocks', 'a caller-supplied per-species dictionary was modified', owner.module, fn)
         n += 5
+        # 3d. the leading parameters by position
+        n += positional(run, repo, cname, ci, I, rxn, kw)
+        # 9. sides re-assigned through the public setters; a second object
+        n += reassigned(run, repo, cname, qual, ci, I, rxn, rs, ps, ts)
         n += named(run, repo, cname, qual, ci)
     run.floor('C08 instances', n, 250)
     network(run, repo)
@@ -474,8 +802,61 @@ MUTANTS = [
      'edits': [('pmutt/__init__.py',
                 "    specie_kwargs = kwargs.copy()\n    # Remove any keys related to other species\n    for key in kwargs.keys():\n        if 'kwargs' in key:\n            temp_kwargs = specie_kwargs.pop(key, {})\n            if key == '{}_kwargs'.format(specie_name):\n                specie_specific_kwargs = temp_kwargs\n    # See if there was an entry for the specific species\n    try:\n        specie_kwargs.update(specie_specific_kwargs)\n    except (KeyError, TypeError, NameError):\n        pass\n",
                 "    specie_kwargs = {}\n    for key, val in kwargs.items():\n        if 'kwargs' not in key:\n            specie_kwargs[key] = val\n        elif key == '{}_kwargs'.format(specie_name):\n            try:\n                specie_kwargs.update(val)\n            except TypeError:\n                pass\n")]},
+    # white-box review, round 2
+    {'name': 'the table of states is built at the first evaluation and never refreshed (whitebox2 A1)',
+     'expect': ('REF.state', 'get_HoRT_state'),
+     'edits': [(R, "        self.notes = notes\n", "        self.notes = notes\n        self._states = None\n"),
+               (R, "        state = state.lower()\n        if state == 'reactants':",
+                "        state = state.lower()\n        if self._states is None:\n            self._states = {}\n"
+                "        if state in self._states:\n            return self._states[state]\n"
+                "        if state == 'reactants':"),
+               (R, "        return (species, species_stoich)",
+                "        self._states[state] = (species, species_stoich)\n        return (species, species_stoich)")]},
+    {'name': 'the coefficients of the transition state are those the constructor was given',
+     'expect': ('REF.state', 'get_HoRT_state'),
+     'edits': [(R, "        self.notes = notes\n",
+                "        self.notes = notes\n        self._ts_stoich = self.transition_state_stoich\n"),
+               (R, "            species_stoich = self.transition_state_stoich",
+                "            species_stoich = self._ts_stoich")]},
+    {'name': 'species whose getters accept **kwargs are handed the raw conditions (whitebox2 A2)',
+     'expect': ('DATAFLOW.species-kwargs', ''),
+     'edits': [(R, "_get_specie_kwargs, _is_iterable, _pass_expected_arguments,",
+                "_get_specie_kwargs, _is_iterable, _pass_expected_arguments,\n                   _kwargs_allowed,"),
+               (R, "            specie_kwargs = _get_specie_kwargs(specie.name, **kwargs)",
+                "            if _kwargs_allowed(getattr(specie, method_name)):\n"
+                "                specie_kwargs = dict(kwargs)\n"
+                "            else:\n"
+                "                specie_kwargs = _get_specie_kwargs(specie.name, **kwargs)")]},
+    {'name': 'block keys split at the first underscore (whitebox2 A3)', 'expect': ('DATAFLOW.species-kwargs', ''),
+     'edits': [('pmutt/__init__.py', "            if key == '{}_kwargs'.format(specie_name):",
+                "            name, _, suffix = key.partition('_')\n"
+                "            if name == specie_name and suffix == 'kwargs':")]},
+    {'name': 'get_G_act takes P before rev (whitebox2 A4)', 'expect': ('REF.act', 'Reaction.get_G_act'),
+     'edits': [(R, "    def get_G_act(self, units, T, rev=False, **kwargs):",
+                "    def get_G_act(self, units, T, P=c.P0('bar'), rev=False, **kwargs):", 0, 2),
+               (R, "        return self.get_GoRT_act(T=T, rev=rev, **kwargs)*T \\\n               *c.R('{}/K'.format(units))\n\n    def get_Keq(",
+                "        return self.get_GoRT_act(T=T, P=P, rev=rev, **kwargs)*T \\\n               *c.R('{}/K'.format(units))\n\n    def get_Keq(")]},
+    {'name': 'get_delta_SoR takes act before rev', 'expect': ('REF.delta', 'get_delta_SoR'),
+     'edits': [(R, "    def get_delta_SoR(self, rev=False, act=False, **kwargs):",
+                "    def get_delta_SoR(self, act=False, rev=False, **kwargs):")]},
+    {'name': 'states that are close in relative terms count as equal (whitebox2 A5)',
+     'expect': ('REF.delta', 'get_delta_'),
+     'edits': [(R, "        if method_name == 'get_q':\n            return final_quantity / initial_quantity\n        else:",
+                "        if method_name == 'get_q':\n            return final_quantity / initial_quantity\n"
+                "        elif np.isclose(final_quantity, initial_quantity):\n            return 0.\n        else:")]},
+    {'name': 'coefficients rounded to whole numbers', 'expect': ('REF.state', '_state'),
+     'edits': [(R, '                state_quantity += \\\n                    _force_pass_arguments(method, **specie_kwargs)*coeff',
+                '                state_quantity += \\\n                    _force_pass_arguments(method, **specie_kwargs)*round(coeff)')]},
 ]
 EQUIV = [
     {'name': 'delta written as -(initial - final)',
      'edits': [(R, '            return final_quantity - initial_quantity', '            return -(initial_quantity - final_quantity)')]},
+    {'name': 'UnboundLocalError named instead of its base class NameError (whitebox2 B1)',
+     'edits': [('pmutt/__init__.py', "    except (KeyError, TypeError, NameError):\n        pass\n    return specie_kwargs",
+                "    except (KeyError, TypeError, UnboundLocalError):\n        pass\n    return specie_kwargs")]},
+    {'name': 'end states picked by indexing with the truth value of rev (whitebox2 B2)',
+     'edits': [(R, "    if rev:\n        initial_state = 'products'\n        final_state = 'reactants'\n    else:\n"
+                "        initial_state = 'reactants'\n        final_state = 'products'\n",
+                "    end_states = ('reactants', 'products')\n    initial_state = end_states[bool(rev)]\n"
+                "    final_state = end_states[not rev]\n")]},
 ]
